@@ -169,9 +169,45 @@ func (a *Automaton) Run() *Result {
 	corrDef := map[ssa.Instruction][]int{}
 	nUser := len(a.Tracks)
 	nCorr := 0
-	for v, ifis := range condUse {
-		if len(ifis) < 2 || nUser+nCorr >= 31 {
+	phiTracks := map[*ssa.Phi]int{}
+	hasConstEdge := func(v ssa.Value) bool {
+		ph, ok := v.(*ssa.Phi)
+		if !ok {
+			return false
+		}
+		for _, e := range ph.Edges {
+			if k, ok := e.(*ssa.Const); ok && k.Value != nil {
+				return true
+			}
+		}
+		return false
+	}
+	// deterministic order
+	var condVals []ssa.Value
+	for _, b := range fn.Blocks {
+		if len(b.Instrs) == 0 {
 			continue
+		}
+		if ifi, ok := b.Instrs[len(b.Instrs)-1].(*ssa.If); ok {
+			v, _ := peelNot(ifi.Cond)
+			dup := false
+			for _, o := range condVals {
+				if o == v {
+					dup = true
+				}
+			}
+			if !dup {
+				condVals = append(condVals, v)
+			}
+		}
+	}
+	for _, v := range condVals {
+		ifis := condUse[v]
+		if (len(ifis) < 2 && !hasConstEdge(v)) || nUser+nCorr >= 31 {
+			continue
+		}
+		if ph, ok := v.(*ssa.Phi); ok {
+			phiTracks[ph] = nUser + nCorr
 		}
 		ti := nUser + nCorr
 		nCorr++
@@ -181,7 +217,9 @@ func (a *Automaton) Run() *Result {
 			corrNeg[ifi] = neg
 		}
 		if def, ok := v.(ssa.Instruction); ok {
-			corrDef[def] = append(corrDef[def], ti)
+			if _, isPhi := v.(*ssa.Phi); !isPhi {
+				corrDef[def] = append(corrDef[def], ti)
+			}
 		}
 	}
 	kills := make([][]int, len(a.Tracks))
@@ -206,6 +244,40 @@ func (a *Automaton) Run() *Result {
 	}
 	if a.StartAfter == nil && a.StartBlock != nil {
 		startBlock = a.StartBlock.Index
+	}
+	// enterBlock applies the effect of taking the edge from -> to on
+	// phi-valued branch conditions: a constant incoming value fixes the
+	// later branch, anything else makes it unknown again.
+	enterBlock := func(from, to *ssa.BasicBlock, st State) State {
+		if len(phiTracks) == 0 {
+			return st
+		}
+		pi := -1
+		for i, p := range to.Preds {
+			if p == from {
+				pi = i
+			}
+		}
+		for _, in := range to.Instrs {
+			ph, ok := in.(*ssa.Phi)
+			if !ok {
+				break
+			}
+			ti, tracked := phiTracks[ph]
+			if !tracked || pi < 0 {
+				continue
+			}
+			val := Unseen
+			if k, ok := ph.Edges[pi].(*ssa.Const); ok && k.Value != nil {
+				if k.Value.String() == "true" {
+					val = True
+				} else if k.Value.String() == "false" {
+					val = False
+				}
+			}
+			st = st.set(ti, val)
+		}
+		return st
 	}
 	seen := map[nodeKey]bool{}
 	process := func(k nodeKey, from int) {
@@ -269,6 +341,7 @@ func (a *Automaton) Run() *Result {
 						}
 						ns = ns.set(ti, v)
 					}
+					ns = enterBlock(b, b.Succs[e], ns)
 					nk := nodeKey{b.Succs[e].Index, ns}
 					recEdge(b.Index, nk.block, ns)
 					r.Edges++
@@ -286,8 +359,8 @@ func (a *Automaton) Run() *Result {
 			}
 		}
 		for _, s := range b.Succs {
-			nk := nodeKey{s.Index, st}
-			recEdge(b.Index, s.Index, st)
+			nk := nodeKey{s.Index, enterBlock(b, s, st)}
+			recEdge(b.Index, s.Index, nk.st)
 			r.Edges++
 			if !seen[nk] {
 				seen[nk] = true
